@@ -201,7 +201,7 @@ private def pacts : List (Pair.Side × Pair.Act) :=
    (.A, .shutdown 0), (.A, .xmit), (.B, .recv), (.B, .read 0 9)]
 example : Pair.Cfg pcfg pcfg [7, 8] [9, 10] := ⟨by decide, by decide, by decide, by decide⟩
 example : Pair.Established (Pair.run (Pair.init pcfg pcfg [7, 8] [9, 10]) pacts) 7 0 0 :=
-  ⟨by decide, by decide, by decide, by decide⟩
+  ⟨by decide, by decide, by decide, by decide, by decide⟩
 
 /-! Non-vacuity: a concrete run with an asymmetric configuration (window 2, threshold 1). -/
 example : (run (init 2 1) [.write [1], .write [2], .write [3], .deliver, .read 8, .deliverAck, .write [3]]).sent = 3 := by decide
